@@ -36,13 +36,25 @@ class C05(LieProp):
         # generic-size helpers d_matrix_product / d2_fog (static, dynamic, sparse outer Jacobian)
         b = vlib.build_harness('derivs', 'derivs.cpp')
         reps = 2 if ctx['tier'] == 'quick' else 12
-        lines += vlib.parse_lines(vlib.run_harness(b, [reps], env={'VERIF_SEED': str(ctx['seed'])}))
+        self._derivs_crash = None
+        try:
+            lines += vlib.parse_lines(vlib.run_harness(b, [reps], env={'VERIF_SEED': str(ctx['seed'])}))
+        except vlib.HarnessRunError as e:
+            # the implementation aborted (Eigen assertion / signal) inside d_matrix_product or d2_fog:
+            # keep the lines it produced before the abort and report the crash as a finding
+            self._derivs_crash = e
+            lines += vlib.parse_lines([l for l in e.out_lines if ' | ' in l])
         return lines
 
     def explore(self, ctx):
         self.tier_holder['tier'] = ctx['tier']
         res = super().explore(ctx)
-        # storage variants of one request must agree bitwise (the model is storage-independent)
+        e = getattr(self, '_derivs_crash', None)
+        if e is not None:
+            last = e.out_lines[-1] if e.out_lines else ''
+            res['findings'].append({'property': 'C05', 'key': {'kind': 'crash', 'op': 'dmp/d2fog', 'after': last.split(' f64')[0]},
+                                    'err': None, 'what': f'harness derivs aborted with {e.rc} inside d_matrix_product / d2_fog '
+                                    f'(Eigen assertion or signal); last completed line: {last[:60]}', 'detail': e.err[-800:]})
         return res
 
     def eval_lines(self, requests):
